@@ -293,6 +293,14 @@ def run(chk, scratch):
                         tsv_exons = a.exons
                         break
                 tsv_exons = tsv_exons or recs[0].exons
+                # ... and that column must itself be the input alignment: its splice sites are a contiguous part of the splice sites an
+                # independent walk over the BAM record's CIGAR gives (terminal tail blocks may have been removed)
+                ti = parse.introns_of(tsv_exons)
+                walked = [parse.introns_of(e) for e in inp.get((b.name, b.chr), [])]
+                if walked and ti and not any(any(list(wi[k:k + len(ti)]) == list(ti) for k in range(len(wi) - len(ti) + 1)) for wi in walked):
+                    chk.violation("assignment-exons-differ-from-input-alignment", "%s: read %s (%s): exons column %s, CIGAR walk %s" %
+                                  (desc, b.name, cls, tsv_exons[:4], inp.get((b.name, b.chr))[0][:4]), wit)
+                    continue
             else:
                 cand = list(inp.get((b.name, b.chr), []))
                 # terminal blocks that are aligned tails (>= 75 % A or T in the reference) are removed before anything else is done
